@@ -392,12 +392,23 @@ theorem setOrder_look_self (h : Heap) (r : Nat) (o : List Int) (s : Sys) (hs : h
   rw [List.getElem?_set_self hr]
   rfl
 
+theorem setArr_look_ne (h : Heap) (r r' : Nat) (a : Arr) (x : Int) (hne : r ≠ r') :
+    (h.setArr r' a x).look r = h.look r := by
+  unfold Heap.setArr
+  split
+  · unfold Heap.look; simp only; rw [List.getElem?_set_ne (by omega)]
+  · rfl
+
+theorem setArr_len (h : Heap) (r : Nat) (a : Arr) (x : Int) : (h.setArr r a x).sys.length = h.sys.length := by
+  unfold Heap.setArr; split <;> simp
+
 /-- re-assigning any field of the object at `r'` leaves every other object as it was -/
 theorem assignField_look_ne (h : Heap) (r r' : Nat) (fld : Field) (hne : r ≠ r') :
     (assignField h r' fld).look r = h.look r := by
   cases fld <;> simp only [assignField] <;> first
     | exact modV_look_ne h r r' _ hne
     | exact setOrder_look_ne h r r' _ hne
+    | exact setArr_look_ne h r r' _ _ hne
 
 /-! ### `recompute` (re-assignment of `order` on every frame of the reversed path) -/
 
